@@ -223,6 +223,10 @@ std::vector<T> operator/(const C& c, const std::vector<T>& v1)
 template<class T>
 void operator+=(std::vector<T>& v1, const std::vector<T>& v2)
 {
+  if (v1.size() != v2.size())
+  {
+    throw DimensionException("VectorTools::operator+=", v1.size(), v2.size());
+  }
   for (size_t i = 0; i < v1.size(); i++)
   {
     v1[i] += v2[i];
@@ -232,6 +236,10 @@ void operator+=(std::vector<T>& v1, const std::vector<T>& v2)
 template<class T>
 void operator-=(std::vector<T>& v1, const std::vector<T>& v2)
 {
+  if (v1.size() != v2.size())
+  {
+    throw DimensionException("VectorTools::operator-=", v1.size(), v2.size());
+  }
   for (size_t i = 0; i < v1.size(); i++)
   {
     v1[i] -= v2[i];
@@ -241,6 +249,10 @@ void operator-=(std::vector<T>& v1, const std::vector<T>& v2)
 template<class T>
 void operator*=(std::vector<T>& v1, const std::vector<T>& v2)
 {
+  if (v1.size() != v2.size())
+  {
+    throw DimensionException("VectorTools::operator*=", v1.size(), v2.size());
+  }
   for (size_t i = 0; i < v1.size(); i++)
   {
     v1[i] *= v2[i];
@@ -250,6 +262,10 @@ void operator*=(std::vector<T>& v1, const std::vector<T>& v2)
 template<class T>
 void operator/=(std::vector<T>& v1, const std::vector<T>& v2)
 {
+  if (v1.size() != v2.size())
+  {
+    throw DimensionException("VectorTools::operator/=", v1.size(), v2.size());
+  }
   for (size_t i = 0; i < v1.size(); i++)
   {
     v1[i] /= v2[i];
